@@ -203,12 +203,22 @@ impl BuildSystem {
         if config.should_force() {
             self.logger.verbose("Force flag set, regenerating bindings");
         } else {
-            match GenerationCache::needs_regeneration(
+            let outputs_present = GenerationCache::outputs_present(
+                &config.output_path,
+                !analyzer.get_discovered_events().is_empty(),
+                config.should_visualize_deps(),
+            );
+            match GenerationCache::needs_regeneration_with_events(
                 &config.output_path,
                 &commands,
                 discovered_structs,
+                analyzer.get_discovered_events(),
                 config,
             ) {
+                Ok(false) if !outputs_present => {
+                    self.logger
+                        .verbose("Cache hit but generated files are missing, regenerating");
+                }
                 Ok(false) => {
                     self.logger
                         .verbose("Cache hit - no changes detected, skipping generation");
@@ -252,7 +262,12 @@ impl BuildSystem {
         }
 
         // Save cache after successful generation
-        let cache = GenerationCache::new(&commands, discovered_structs, config)?;
+        let cache = GenerationCache::new_with_events(
+            &commands,
+            discovered_structs,
+            analyzer.get_discovered_events(),
+            config,
+        )?;
         if let Err(e) = cache.save(&config.output_path) {
             self.logger
                 .warning(&format!("Failed to save generation cache: {}", e));
